@@ -693,7 +693,7 @@ func init() {
 			if tier == "thorough" {
 				bound = 3
 			}
-			us = append(us, c13Readers("link W1 a", bound), c13Readers("upd a b 9", bound), c13Migration(), c13ModelValidation(), c13LostCommitRaces(), c13BinaryRestart(), c13BinaryRestartMode("default-dir"), c13BinaryRestartMode("unusable-home"))
+			us = append(us, c13Readers("link W1 a", bound), c13Readers("upd a b 9", bound), c13Migration(), c13ModelValidation(), c13LostCommitRaces(), c13Golden(), c13BinaryRestart(), c13BinaryRestartMode("default-dir"), c13BinaryRestartMode("unusable-home"))
 			for _, scen := range []string{"credit-vs-link", "credit-vs-link-vs-acct", "two-links", "link-vs-reregister", "peers-vs-reregister"} {
 				us = append(us, c13Writers(scen, bound))
 			}
